@@ -67,3 +67,74 @@ func ClientContext(res *fw.Result, seed int64) error {
 	}
 	return nil
 }
+
+// SubCancelAfterReconnect: a subscription opened on a re-established connection is cancelled after its call
+// returned: the cancellation must reach its handler exactly as on a first connection.
+func SubCancelAfterReconnect(res *fw.Result, seed int64) error {
+	e, err := scen.NewEnv(seed+47, 0)
+	if err != nil {
+		return err
+	}
+	defer e.Close()
+	ctx, cancel := context.WithCancel(context.Background())
+	defer cancel()
+	cl, closer, err := e.Client(ctx, jsonrpc.WithReconnectBackoff(10*time.Millisecond, 20*time.Millisecond))
+	if err != nil {
+		return err
+	}
+	defer scen.WithTimeout(3*time.Second, closer)
+	sig := "subscription cancelled after a reconnect"
+	for reconnects := 0; reconnects <= 2; reconnects++ {
+		if reconnects > 0 {
+			n0 := e.PX.Accepted()
+			e.PX.Cut(0, "rst")
+			healed := false
+			for w := 0; w < 600 && !healed; w++ {
+				if e.PX.Accepted() > n0 {
+					cctx, cc := context.WithTimeout(ctx, 300*time.Millisecond)
+					_, err := cl.Count(cctx, 995000+reconnects)
+					cc()
+					healed = err == nil
+				}
+				time.Sleep(5 * time.Millisecond)
+			}
+			if !healed {
+				res.Add(fw.Finding{Kind: "monitor", Signature: sig + " no heal", Detail: "the client did not heal"})
+				return nil
+			}
+		}
+		tok := 996000 + reconnects
+		sctx, scancel := context.WithCancel(ctx)
+		ch, err := cl.Sub(sctx, tok, -1)
+		if err != nil {
+			scancel()
+			res.Add(fw.Finding{Kind: "monitor", Signature: sig + " subscribe fails", Detail: fmt.Sprint(err)})
+			return nil
+		}
+		for k := 0; k < 3; k++ {
+			select {
+			case <-ch:
+			case <-time.After(2 * time.Second):
+			}
+		}
+		scancel()
+		ok := false
+		for w := 0; w < 2500 && !ok; w++ {
+			if c, known := e.H.C.CtxErr(tok); known && c {
+				ok = true
+			}
+			time.Sleep(time.Millisecond)
+		}
+		res.Count("sub-cancel-after-reconnect")
+		res.Eval(true, []interface{}{"sub-cancel-after-reconnect", reconnects})
+		if !ok {
+			res.Add(fw.Finding{Kind: "monitor", Signature: sig + " cancellation not delivered", Detail: fmt.Sprintf("after %d reconnect(s): 2.5s after the subscription's context was cancelled its handler's context is still live", reconnects),
+				Case: map[string]interface{}{"scenario": "sub-cancel-after-reconnect", "reconnects": reconnects}})
+		}
+		go func() {
+			for range ch {
+			}
+		}()
+	}
+	return nil
+}
